@@ -251,6 +251,22 @@ def recover_head(repo: Path) -> list[str]:
     return [ast.unparse(n) for n in body[: idx[0]]]
 
 
+def format_time(repo: Path) -> list[str]:
+    """The statements of ``VgiJsonFormatter.formatTime`` (docstring removed); VgiAccessLogFormatter must not override it."""
+    site = "vgi_rpc/logging_utils.py:VgiJsonFormatter.formatTime"
+    tree = _parse(repo / "vgi_rpc" / "logging_utils.py")
+    base = [n for n in tree.body if isinstance(n, ast.ClassDef) and n.name == "VgiJsonFormatter"]
+    sub = [n for n in tree.body if isinstance(n, ast.ClassDef) and n.name == "VgiAccessLogFormatter"]
+    if len(base) != 1 or len(sub) != 1:
+        raise TranslationBroken(site, "formatter classes not found exactly once")
+    if [ast.unparse(b) for b in sub[0].bases] != ["VgiJsonFormatter"]:
+        raise TranslationBroken(site, "VgiAccessLogFormatter does not derive from VgiJsonFormatter alone")
+    if any(isinstance(n, ast.FunctionDef) and n.name in ("formatTime", "_build_payload") for n in sub[0].body):
+        raise TranslationBroken(site, "VgiAccessLogFormatter overrides formatTime / _build_payload")
+    fn = _func(base[0], "formatTime", site)
+    return [ast.unparse(n) for n in _strip_doc(fn.body)]
+
+
 def definitions(repo: Path) -> str:
     lim = msg_limit(repo)
     message_sites(repo)
@@ -259,6 +275,7 @@ def definitions(repo: Path) -> str:
     keeps, table, head = sentinel(repo)
     marked, targs = telemetry(repo)
     rhead = recover_head(repo)
+    ftime = format_time(repo)
     pair = lambda a, b: f"({cstr(a)}, {cstr(b)})"  # noqa: E731
     out = [
         f"Definition gen_shape : shape :=\n  {{| msg_limit := {'None' if lim is None else f'Some {lim}%nat'}; error_msg_always := {'true' if always else 'false'}; "
@@ -273,6 +290,8 @@ def definitions(repo: Path) -> str:
         "Definition gen_telemetry_args : list (list N * list N) :=\n  " + clist([pair(k, v) for k, v in targs]) + ".",
         "(* _unpack_and_recover_state up to the state rebuild: the stream id is published after the lookup, hit or miss *)",
         "Definition gen_recover_head : list (list N) :=\n  " + clist([cstr(x) for x in rhead]) + ".",
+        "(* VgiJsonFormatter.formatTime *)",
+        "Definition gen_format_time : list (list N) :=\n  " + clist([cstr(x) for x in ftime]) + ".",
     ]
     return "\n".join(out) + "\n"
 
